@@ -28,11 +28,11 @@ REQUIRED = [
     'presenceCounts_weight', 'rankedToApproval_eq_accum', 'rankedToApproval_sum', 'rankedToApproval_additive',
     'rankedToApproval_additive_merged', 'rankedToApproval_single', 'rankedToApproval_same_key',
     'rankedToApproval_weight_conserved', 'rankedToApproval_is_dict', 'firstN_eq_accum', 'firstN_sum',
-    'firstN_additive', 'firstN_additive_merged', 'firstN_single', 'pyTake_nonneg', 'firstN_weight_conserved',
-    'firstN_is_dict', 'firstN_flat_image_partial', 'firstN_flat_image_witness', 'covers_allRankedCandidates',
-    'positional_sum', 'positional_additive', 'positional_additive_merged', 'rankedToPositional_additive',
-    'rankedToPositional_keys', 'posImage_eq_sum', 'borda_score_at', 'borda_rejects', 'dowdall_score_at',
-    'geometric_score_at', 'modifiedBorda_score_at', 'fixedTop_score_at', 'sequence_score_at',
+    'firstN_additive', 'firstN_additive_merged', 'firstN_flat_image', 'firstN_empty', 'firstN_same_key',
+    'pyTake_nonneg', 'firstN_weight_conserved', 'firstN_is_dict', 'firstN_shared_rank_flattened',
+    'covers_allRankedCandidates', 'positional_sum', 'positional_additive', 'positional_additive_merged',
+    'rankedToPositional_additive', 'rankedToPositional_keys', 'posImage_eq_sum', 'borda_score_at', 'borda_rejects',
+    'dowdall_score_at', 'geometric_score_at', 'modifiedBorda_score_at', 'fixedTop_score_at', 'sequence_score_at',
     'positional_borda_rejects', 'condorcet_sum', 'condorcet_additive', 'condorcet_additive_merged',
     'rankedToCondorcet_additive_nobottom', 'rankedToCondorcet_additive', 'condorcet_single',
     'above_iff_earlier_place', 'pairwise_le_total', 'pairwise_le_total_merged',
@@ -1429,6 +1429,4 @@ LEVEL_TEXT = ('every converter of votelib.convert named in the property is model
               'the models are tied to /repo by a differential correspondence on A, B, A+B and single-ballot profiles plus an independent oracle.')
 LEVEL_NOTE = ('Trusted: Lean kernel + propext/Classical.choice/Quot.sound; translate.py for the rank-score lists; the correspondence harness '
               '(2-5 candidates, 1-7 ballots); frozensets and output dicts compared up to iteration order.')
-UNPROVED = ['firstN_flat_image: the key of RankedToFirstNPreferences is the approval set of the candidates at the first n places '
-            '(FALSE of the code when a shared rank is among them: firstN_flat_image_witness; proved otherwise: '
-            'firstN_flat_image_partial; known finding C13-firstn-nested-set)']
+UNPROVED = []
